@@ -260,7 +260,8 @@ def _hspace(rec, case):
     geo = None
     if gk == 'affine':
         A = rng.standard_normal((2, 2)) * 0.3 + np.eye(2)
-        geo = geometry.unit_square().apply_matrix(A).translate(rng.standard_normal(2))
+        A_geo = A; b_geo = rng.standard_normal(2)
+        geo = geometry.unit_square().apply_matrix(A).translate(b_geo)
     ok, uh = guarded(rec, c, dict(sig, geo=gk), approx.project_L2, hs, f, False, geo)
     # condition number from the finest-level representation (independent of the hierarchical assembler)
     from pyiga import assemble
@@ -291,3 +292,28 @@ def _hspace(rec, case):
         got = tp.grid_eval(tp.kvs_of(kv_f), fine, grids); want = tp.grid_eval(tp.kvs_of(kv0), C0, grids)
         rec.check_close('hspace_projection_level0', float(np.abs(got - want).max()), float(1e-10 * cond * (np.abs(C0).max() + 1)),
                         dict(sig, geo=gk, data='coarsest-level spline'), c)
+    # plain callables: a multilinear polynomial lies in every level's space (p >= 1), given in parametric coordinates
+    # (f_physical=False) or, pulled back through the geometry, in physical coordinates (f_physical=True)
+    if bound < 1e-3 and all(k.p >= 1 for k in kv0):
+        cf = rng.uniform(0.5, 1.5, 4)
+        def fpar(*X):          # X in xyz order = reversed parametric axes
+            if len(X) == 1: return cf[0] + cf[1] * X[0]
+            x_, y_ = X[0], X[1]
+            return cf[0] + cf[1] * x_ + cf[2] * y_ + cf[3] * x_ * y_
+        grids = [np.linspace(k.kv[0], k.kv[-1], 7) for k in kv_f]
+        GX = np.meshgrid(*grids, indexing='ij')                       # axis order (y, x)
+        want = fpar(*reversed(GX))
+        variants = [('parametric callable', fpar, False)]
+        if geo is not None:
+            Ainv = np.linalg.inv(A_geo); b_geo_ = b_geo
+            def fphys(*Xp):
+                P_ = np.stack([np.asarray(x, dtype=float) for x in np.broadcast_arrays(*Xp)], axis=-1)
+                xi = (P_ - b_geo_) @ Ainv.T
+                return fpar(xi[..., 0], xi[..., 1])
+            variants.append(('physical callable', fphys, True))
+        for dname, fn, phys in variants:
+            ok, uc = guarded(rec, c, dict(sig, geo=gk, data=dname), approx.project_L2, hs, fn, phys, geo)
+            if ok:
+                fine = np.asarray(I @ np.asarray(uc)).reshape(tuple(k.numdofs for k in kv_f))
+                got = tp.grid_eval(tp.kvs_of(kv_f), fine, grids)
+                rec.check_close('hspace_projection_callable', float(np.abs(got - want).max()), float(1e-9 * cond * (np.abs(cf).sum() + 1)), dict(sig, geo=gk, data=dname), c)
